@@ -70,6 +70,8 @@ pub fn scenarios(quick: bool) -> Vec<Scenario> {
             v.push(Scenario::new(&format!("C04-gitignore-{}-w{}", d, w), gi, &["-r", "--gitignore", "--driver", d, "-w", &ws, "src", "dst"]));
             let gl = vec![Entry::file("s1", "one"), Entry::file("s2", "two"), Entry::dir("sd"), Entry::file("sd/in", "inside"), Entry::file("other", "not selected"), Entry::dir("dst")];
             v.push(Scenario::new(&format!("C04-glob-{}-w{}", d, w), gl, &["-r", "-g", "--driver", d, "-w", &ws, "s?", "sd*", "dst"]));
+            v.push(Scenario::new(&format!("C04-noprogress-{}-w{}", d, w), tree_src(), &["-r", "--no-progress", "--fsync", "--driver", d, "-w", &ws, "src", "dst"]));
+            v.push(Scenario::new(&format!("C04-oneworker-{}-w{}", d, w), tree_src(), &["-r", "--driver", d, "-w", "1", "--block-size", "4096", "src", "dst"]));
             let mut nc = tree_src();
             nc.push(Entry::dir("dst"));
             nc.push(Entry::file("dst/unrelated", "bystander").mtime(1_200_000_000, 1));
